@@ -74,6 +74,22 @@ def spiral(n, nz=2):
     return m
 
 
+def staircase(n, ny=2):
+    """one bottom cell under a z,x,z,x,... staircase: a sweep (xy, xz, yz dilation) advances it by a single cell at a time"""
+    m = zeros((n + 1, ny, n + 1))
+    x = z = 0
+    m[0][0][0] = 1
+    for step in range(2 * n):
+        if step % 2 == 0:
+            z += 1
+        else:
+            x += 1
+        if x > n or z > n:
+            break
+        m[x][0][z] = 1
+    return m
+
+
 def invert(m):
     return [[[1 - v for v in r] for r in p] for p in m]
 
@@ -111,6 +127,8 @@ def gen_cases(ctx):
             cases += [case("polymer", s), case("remove", spiral(n))]
     if ctx.quick:
         cases += [case("remove", serpentine(7))]
+    for n in ctx.pick([3], [2, 3, 5]):
+        cases += [case("remove", staircase(n)), case("polymer", staircase(n, 1))]
     # one-layer and thin boxes (crashed / lost everything before the fix)
     for shape in ctx.pick([(4, 5, 1), (2, 4, 4)], [(4, 5, 1), (1, 1, 1), (2, 4, 4), (1, 5, 4), (4, 4, 2), (5, 2, 5), (6, 1, 1), (1, 1, 6)]):
         for _ in range(2):
